@@ -79,12 +79,19 @@ fn cstr(b: &[u8], pos: &mut usize) -> String {
 fn ready() -> Vec<u8> {
     msg(b'Z', b"I")
 }
+/// SQLSTATE codes a client may be tempted to treat specially; the scripted failures rotate through them.
+const SQLSTATES: &[&str] = &["XX000", "57P01", "57P03", "57014", "40001", "40P01", "25P02", "08006", "53300", "42601", "0A000", "HV000", "00000"];
+static NEXT_STATE: AtomicU64 = AtomicU64::new(0);
+
 fn error_response(text: &str) -> Vec<u8> {
+    let code = SQLSTATES[NEXT_STATE.fetch_add(1, Ordering::Relaxed) as usize % SQLSTATES.len()];
+    let severity: &[u8] = if code == "57P01" { b"FATAL\0" } else { b"ERROR\0" };
     let mut b = Vec::new();
     b.push(b'S');
-    b.extend_from_slice(b"ERROR\0");
+    b.extend_from_slice(severity);
     b.push(b'C');
-    b.extend_from_slice(b"XX000\0");
+    b.extend_from_slice(code.as_bytes());
+    b.push(0);
     b.push(b'M');
     b.extend_from_slice(text.as_bytes());
     b.push(0);
